@@ -1637,7 +1637,7 @@ func (s *Service) runPipeline(rp *runnablePipeline) error {
 			if rp.forceStopped.Load() && !cerrors.IsFatalError(err) {
 				// the run was force stopped after it had already failed with
 				// this (recoverable) error: the force stop decides
-				err = cerrors.FatalError(cerrors.Errorf("%w (the run had already failed: %w)", pipeline.ErrForceStop, err))
+				err = cerrors.FatalError(cerrors.Errorf("the run had already failed (%v) when it was force stopped: %w", err, pipeline.ErrForceStop))
 			}
 			switch {
 			case cerrors.IsFatalError(err):
